@@ -364,6 +364,8 @@ def _layer_body(g: int, nq: int, rx: int, tk: int, e01: bool, e02: bool, e03: bo
                     for (gt, l1) in new:
                         if len(l1) == 1 and l1[0] not in loc:
                             return 'layer:%s:single-qudit-gate-off-the-new-entangler' % gen_name
+                    if gen_name.startswith('simple') and {l1[0] for (gt, l1) in new if len(l1) == 1} != set(loc):
+                        return 'layer:%s:an-entangled-qudit-got-no-single-qudit-gate' % gen_name
                     nxt.append(s)
                 if not wide:
                     # every coupled pair is offered; a pair may be left out only right after itself was used
